@@ -53,6 +53,18 @@ def main():
         if rc != 0 or got != want:
             fails += 1
             print('FAIL label=%s program=%s detail=after a return from inside a nested block the caller sees the callee\'s variables: printed %s, expected %s' % ('exec.for.scope_closed_on_every_path' if 'for (' in src.split('function main')[0] else 'exec.block.scope_closed_on_every_path', json.dumps(src), got, want))
+    # ---- a return inside a loop / block leaves it at once: nothing more of the loop or the block runs (C07)
+    ret = [('function f(int n) -> int { for (int i = 0; i < 10; i = i + 1) { if (i * i > n) { return i; } } return -1; }\nfunction main() -> void { echo(f(10)); }\n', ['4'], 'exec.for.nothing_runs_once_the_body_has_returned'),
+           ('function g() -> int { for (int i = 0; i < 6; i = i + 1) { echo("visit"); if (i == 2) { return i; } } return -1; }\nfunction main() -> void { echo(g()); }\n', ['visit', 'visit', 'visit', '2'], 'exec.for.nothing_runs_once_the_body_has_returned'),
+           ('function hh(int n) -> int { int i = 0; while (i < 10) { if (i * i > n) { return i; } i = i + 1; } return -1; }\nfunction main() -> void { echo(hh(10)); }\n', ['4'], 'exec.while.nothing_runs_once_the_body_has_returned'),
+           ('function w() -> int { int i = 0; while (i < 6) { echo("visit"); if (i == 1) { return i; } i = i + 1; } return -1; }\nfunction main() -> void { echo(w()); }\n', ['visit', 'visit', '1'], 'exec.while.nothing_runs_once_the_body_has_returned'),
+           ('function b(int n) -> int { { if (n > 0) { return 1; } echo("after"); } echo("end"); return 2; }\nfunction main() -> void { echo(b(5)); echo(b(0)); }\n', ['1', 'after', 'end', '2'], 'exec.block.nothing_runs_once_a_statement_has_returned')]
+    for src, want, lab in ret:
+        rc, out = run(bloch, src); n += 1
+        got = [l.strip() for l in out.strip().split('\n') if l.strip()]
+        if rc != 0 or got != want:
+            fails += 1
+            print('FAIL label=%s program=%s detail=printed %s, expected %s' % (lab, json.dumps(src), got, want))
     # ---- which method runs for obj.m(...): the override of the receiver's dynamic class; super.m() the base version
     H3 = ('class Shape { public constructor() -> Shape = default; public virtual function name() -> string { return "Shape"; } public function describe() -> string { return "I am " + this.name(); } public function plain() -> string { return "plainShape"; } }\n'
           'class Circle extends Shape { public constructor() -> Circle = default; public override function name() -> string { return "Circle"; } public function viaSuper() -> string { return super.plain(); } }\n'
